@@ -463,7 +463,8 @@ func genFile(t *rapid.T) FileCase {
 		c.Extra = rapid.SampledFrom([]string{"[network]\nretries = 3\n", "[style.colors]\nsecondary = \"#000000\"\n", "[media]\nhooks = [\"x\"]\n", "verbose = true\n"}).Draw(t, "unknownkey")
 	case 1:
 		c.ExtraLabel = "unknown-table"
-		c.Extra = rapid.SampledFrom([]string{"[keys]\nup = \"k\"\n", "[style.fonts]\nbold = true\n", "[[feeds]]\nname = \"x\"\n"}).Draw(t, "unknowntable")
+		c.Extra = rapid.SampledFrom([]string{"[keys]\nup = \"k\"\n", "[style.fonts]\nbold = true\n", "[[feeds]]\nname = \"x\"\n",
+			"[plugins]\n", "[network.proxy]\n", "[style.colours]\n", "proxy = {}\n", "[plugins]\n# nothing yet\n", "[a.b.c]\n"}).Draw(t, "unknowntable")
 	case 2:
 		c.ExtraLabel = "syntax"
 		c.Extra = rapid.SampledFrom([]string{"[network\n", "= 5\n", "x = \n", "[style]\ncolors = {\n", "\"unterminated\n", "a = 1 b = 2\n", "\x00\n"}).Draw(t, "syntax")
